@@ -29,9 +29,12 @@ package store
 //@ spec func reqKeysOK(meta manifest.RegionMeta, r *pb.Request) bool = (r.CmdType == 1 ==> keyOK(meta, r.GetGet().GetKey())) && (r.CmdType == 2 ==> keyOK(meta, r.GetScan().GetStartKey())) && (r.CmdType == 3 ==> mutsOKTo(meta, r.GetPrewrite().GetMutations(), len(r.GetPrewrite().GetMutations()))) && (r.CmdType == 4 ==> keysOKTo(meta, r.GetCommit().GetKeys(), len(r.GetCommit().GetKeys()))) && (r.CmdType == 5 ==> keysOKTo(meta, r.GetBatchRollback().GetKeys(), len(r.GetBatchRollback().GetKeys()))) && (r.CmdType == 6 ==> keysOKTo(meta, r.GetResolveLock().GetKeys(), len(r.GetResolveLock().GetKeys()))) && (r.CmdType == 7 ==> keyOK(meta, r.GetCheckTxnStatus().GetPrimaryKey())) && 1 <= r.CmdType && r.CmdType <= 7
 //@ spec func reqsOKTo(meta manifest.RegionMeta, reqs []*pb.Request, n int) bool = forall i int :: 0 <= i && i < n && i < len(reqs) && reqs[i] != nil ==> reqKeysOK(meta, reqs[i])
 
+// The nested-quantifier invariants make some back-edge obligations take minutes: this
+// function is checked in the thorough tier only.
 //@ func validateRequestKeys
 //@   property C25
-//@   timeout 180
+//@   tag thorough-only
+//@   timeout 900
 //@   ensures [all-named-keys-in-range] result == nil && req != nil ==> reqsOKTo(meta, req.Requests, len(req.Requests))
 //@   loop 1 invariant [done-so-far] req != nil && reqsOKTo(meta, req.Requests, rangeindex#1 + 1)
 //@   loop 2 invariant [prewrite] req != nil && reqsOKTo(meta, req.Requests, rangeindex#1) && r != nil && r.CmdType == 3 && mutsOKTo(meta, r.GetPrewrite().GetMutations(), rangeindex#2 + 1)
